@@ -83,7 +83,7 @@ J gen_stream(const std::string& prop, uint64_t run_seed, const std::string& tier
   }
   knobs.set("buf", kn.below(3)); knobs.set("replay", kn.below(2)); knobs.set("empty_call", kn.chance(1, 4) ? 1 : 0);
   knobs.set("be", prop == "C13" ? kn.below(3) : (uint64_t)BE_DIRECT);
-  knobs.set("fpmode", kn.below(4) == 0 ? 1 : 0);   // a quarter of the runs with FTZ/DAZ set in the thread's MXCSR
+  knobs.set("fpmode", gen_fpmode(kn));   // the calling thread's floating-point environment: FTZ/DAZ in a quarter of the runs, a directed rounding mode in a quarter
   plan.set("knobs", knobs);
   J conns = J::arr();
   unsigned nstreams = (unsigned)g.range(1, 3);
